@@ -204,7 +204,33 @@ let run_spec id line =
     (css_expected sels doc);
   print_endline "."
 
+let count_oe (el : Stdlib.String.t) =
+  List.length (List.filter (fun o -> String.length o >= 3 && String.sub o 0 3 = "oe:") (split ',' el))
+let run_scope id line =
+  let tokens = String.split_on_char ' ' line in
+  let tbl = kv line in
+  let sels = List.map (fun v -> match String.split_on_char '~' v with
+      | [_; st; el; cm; tx] -> { sf_sel = parse_selector st; sf_el = (if el = "-" then None else Some (nat_of_int (count_oe el))); sf_cm = (cm <> "-"); sf_tx = (tx <> "-") }
+      | _ -> failwith "sel") (values tokens "sel") in
+  let docs = List.map (fun v -> match String.split_on_char '~' v with
+      | [dt; cm; tx; en] -> { df_dt = (dt <> "-"); df_cm = (cm <> "-"); df_tx = (tx <> "-"); df_end = (en <> "-") }
+      | _ -> failwith "doc") (values tokens "doc") in
+  let doc = List.concat (List.filter_map (function Write b -> Some b | End -> None) (parse_ops (get tbl "ops" "E"))) in
+  Printf.printf "C %s\n" id;
+  List.iter (fun x ->
+    Printf.printf "X %s %d %d %d\n" (match x.x_kind with XEl -> "el" | XEt -> "et" | XCm -> "cm" | XTx -> "tx" | XDt -> "dt" | XEnd -> "end")
+      (int_of_nat x.x_idx) (int_of_nat x.x_loc) (int_of_nat x.x_end)) (scope_expected sels docs doc);
+  print_endline "."
+
 let () =
+  if Array.length Sys.argv > 1 && Sys.argv.(1) = "scope" then
+    (try while true do
+      let line = input_line stdin in
+      match String.split_on_char ' ' line with
+      | "L2" :: id :: _ -> (try run_scope id line with Failure m -> Printf.printf "C %s\nX scope-driver-failure %s\n.\n" id m)
+      | _ -> ()
+    done with End_of_file -> ())
+  else
   if Array.length Sys.argv > 1 && Sys.argv.(1) = "spec" then
     (try while true do
       let line = input_line stdin in
